@@ -2,9 +2,12 @@
 // usage: c09 <mode> <seed0> <nruns>
 //   mode acc      Accessor style, atomic-level trace replayed in lock-step by lean/Drivers/C09.lean
 //   mode tls      thread-local style (Epoch::lock()/unlock()), lock-step
-//   mode accgrow | tlsgrow   same programs, `_slots` starts EMPTY with 2 slots per block so that
-//                 ensure() growth races with the scan; oracle only (slots cannot be named in advance)
+//                 per seed either `_slots` is pre-reserved (4 slots per block) or it starts EMPTY with
+//                 2 slots per block so that ensure() growth races with the scan (slots are then named
+//                 through a VRT resolver that walks the current block table)
 //   mode relock   sequential probe: Accessor released while a region is open, slot reused (see report)
+//   With VRT_MEM=view in the environment the same programs run under VRT's stale-read simulation
+//   (oracle only, no lock-step replay).
 // One run = one seeded program on one seeded schedule:
 //   1-3 readers opening regions (nesting <= 3), loading the shared cell `ptr`, dereferencing the
 //   object it names twice (with a yield in between), closing; Accessor style readers also release /
@@ -77,6 +80,28 @@ static Epoch::Slot& slot_of(World& w, size_t idx) {
   auto* table = *reinterpret_cast<ConcurrentVector<Epoch::Slot>::BlockTable**>(&w.epoch._slots._block_table);
   size_t bs = w.epoch._slots._meta.block_size();
   return table->blocks[idx / bs][idx % bs];
+}
+
+// names for slots created during the run: walk the current block table (plain reads)
+static World* g_world = nullptr;
+static bool resolve_slot(const void* addr, char* out, size_t cap) {
+  if (!g_world) return false;
+  World& w = *g_world;
+  auto* table = *reinterpret_cast<ConcurrentVector<Epoch::Slot>::BlockTable**>(&w.epoch._slots._block_table);
+  if (table == nullptr) return false;
+  size_t bs = w.epoch._slots._meta.block_size();
+  uintptr_t p = (uintptr_t)addr;
+  for (size_t b = 0; b < table->size; ++b) {
+    uintptr_t base = (uintptr_t)table->blocks[b];
+    if (p >= base && p < base + bs * sizeof(Epoch::Slot)) {
+      size_t k = (p - base) / sizeof(Epoch::Slot);
+      if ((p - base) % sizeof(Epoch::Slot) != offsetof(Epoch::Slot, version)) return false;
+      size_t idx = b * bs + k;
+      if (idx == 0) snprintf(out, cap, "slot"); else snprintf(out, cap, "slot+%zu", idx);
+      return true;
+    }
+  }
+  return false;
 }
 
 // ---- wrappers emitting call / ret events -----------------------------------------------------
@@ -256,15 +281,15 @@ static void name_all(World& w, size_t nslots) {
 }
 
 static void run(const std::string& mode, uint64_t seed) {
-  bool tls = mode == "tls" || mode == "tlsgrow";
-  bool grow = mode == "accgrow" || mode == "tlsgrow";
+  bool tls = mode == "tls";
+  Rng rng(seed);
+  bool grow = rng.below(2) == 0;
   auto wp = std::make_unique<World>();
   World& w = *wp;
   w.tls = tls;
   for (auto& c : w.chan_xfer) c.store(0);
   for (auto& x : w.xfer) x.used = false;
   w.objs[0].data = 1000;
-  Rng rng(seed);
   size_t bs = grow ? 2 : 4;
   w.epoch._slots = ConcurrentVector<Epoch::Slot>(bs);
   auto& tid_alloc = internal::concurrent_id_allocator::IdAllocatorFotType<Epoch, false>::instance();
@@ -274,7 +299,9 @@ static void run(const std::string& mode, uint64_t seed) {
     nslots = tls ? ((n0 + 8 + bs - 1) / bs) * bs : 16;
     w.epoch._slots.reserve(nslots);
   }
-  if (!grow) name_all(w, nslots); else vrt_unname_all();
+  name_all(w, nslots);
+  g_world = &w;
+  vrt_set_resolver(resolve_slot);
   int nreaders = 1 + (int)rng.below(3);
   bool self_reclaim = rng.below(2) == 0;
   bool with_helper = !tls;
@@ -303,9 +330,11 @@ static void run(const std::string& mode, uint64_t seed) {
   uint64_t m = w.epoch.low_water_mark();
   vrt_event("ret lwm %lu", m);
   if (m != UINT64_MAX) vrt_event("ORACLE held-back low_water_mark is %lu at quiescence", m);
-  vrt_event("stats steps %lu switches %lu", vrt_steps(), vrt_switches());
+  vrt_event("stats steps %lu switches %lu stale %lu", vrt_steps(), vrt_switches(), vrt_stale_reads());
   vrt_end();
   vrt_dump(stdout);
+  vrt_set_resolver(nullptr);
+  g_world = nullptr;
 }
 
 // Accessor released while its region is open, slot reused by the next accessor (client misuse?
@@ -335,7 +364,7 @@ int main(int argc, char** argv) {
     run_relock();
     return 0;
   }
-  if (mode != "acc" && mode != "tls" && mode != "accgrow" && mode != "tlsgrow") return 2;
+  if (mode != "acc" && mode != "tls") return 2;
   for (int i = 0; i < nruns; ++i) run(mode, seed0 + i);
   return 0;
 }
